@@ -132,3 +132,12 @@ func init() {
 		Assumptions: []string{"numbers within ±2^53 (C13), so integer→float64 is exact", "int is 64 bits wide", trustDeps},
 	}
 }
+
+func init() {
+	Properties["C12"] = PropSpec{
+		Rules:       []Rule{InputRO},
+		Explanation: "INPUT-RO: whole-package taint propagation on SSA. Sources are the schema / data / parameter / header / document parameters of the exported entry points and (*loads.Document).Spec(); a value is T1 when it points into caller-owned memory and T2 when it is the address of a local shallow copy (pointers, maps and slices loaded out of a T2 copy are T1 again). Every store through a pointer, map update, delete, append, copy and external mutator call (ExpandSchema, ExpandParameter*, ExpandResponse*, sort.*, json.Unmarshal, gob Decode) on spec.* / dynamic-JSON typed memory in package validate must have a target that is not T1. Two reviewed exceptions are checked structurally: the lazy ExpandSchema of a caller's schema under the test of its ID/$ref, and the parameter list rewritten on the operation returned by expandedAnalyzer(), which must still prefer the private expanded copy.",
+		NotDecided:  "Mutation performed inside dependencies on objects handed to them and not listed in the mutator table; package post (mutates the data by contract).",
+		Assumptions: []string{"(*loads.Document).Expanded and swag.ToDynamicJSON return memory not shared with their argument", trustDeps},
+	}
+}
